@@ -91,7 +91,9 @@ def pickTimeout (parseInt : String → Option Int) (var hdr : Option String) (ha
 def specGlobal (parseInt : String → Option Int) (g0 : Int) (hasRoute : Bool) (routeGlobal : Int)
     (hdrGlobal varGlobal : Option String) : Int :=
   let g := pickTimeout parseInt varGlobal hdrGlobal hasRoute routeGlobal g0
-  if g = 0 then 60000000000 else g
+  -- [c08l9] a global timeout that is not positive (absent, 0, negative header / variable / route value) is the default:
+  -- the timers are armed only for values > 0, a negative one would disable both (request hangs on a silent upstream)
+  if g ≤ 0 then 60000000000 else g
 
 def specTry (parseInt : String → Option Int) (g0 t0 : Int) (hasRoute : Bool) (routeGlobal routeTry : Int)
     (hdrTry hdrGlobal varTry varGlobal : Option String) : Int :=
